@@ -8,14 +8,20 @@ Systems ==
     vec   |-> [nn |-> 2, dofn |-> 2, unknowns |-> <<"x","y">>, orphans |-> {},
                k |-> << <<4,1,-2,0>>, <<1,3,0,-1>>, <<-2,0,5,1>>, <<0,-1,1,2>> >>],
     orph  |-> [nn |-> 4, dofn |-> 1, unknowns |-> <<"x">>, orphans |-> {2},
-               k |-> << <<2,-2,0,0>>, <<-2,5,0,-3>>, <<0,0,0,0>>, <<0,-3,0,3>> >>] ]
-Names == {"chain", "vec", "orph"}
+               k |-> << <<2,-2,0,0>>, <<-2,5,0,-3>>, <<0,0,0,0>>, <<0,-3,0,3>> >>],
+    (* an operator that is NOT symmetric (diffusion 4,2,6 plus advection [[-1,1],[-1,1]] per element, as a user weak form with a   *)
+    (* convection term assembles): the coupling block to the prescribed dofs is A[free, known], not the transpose of A[known, free] *)
+    adv   |-> [nn |-> 4, dofn |-> 1, unknowns |-> <<"x">>, orphans |-> {},
+               k |-> << <<3,-3,0,0>>, <<-5,6,-1,0>>, <<0,-3,8,-5>>, <<0,0,-7,7>> >>] ]
+Names == {"chain", "vec", "orph", "adv"}
 Dirs ==
   [ chain |-> {Cn(<<0>>, X, <<RI(0)>>), Cn(<<0,3>>, X, <<RI(1)>>), Cn(<<3>>, X, <<R(1,2)>>), Cn(<<0>>, X, <<RI(-2)>>), Cn(<<2,1>>, X, <<R(1,4)>>)},
     vec   |-> {Cn(<<0>>, <<"x","y">>, <<RI(0), RI(1)>>), Cn(<<0>>, <<"y","x">>, <<R(1,2), RI(-1)>>), Cn(<<1>>, <<"y">>, <<RI(2)>>), Cn(<<1,0>>, <<"x">>, <<RI(1)>>)},
-    orph  |-> {Cn(<<0>>, X, <<RI(0)>>), Cn(<<2>>, X, <<RI(1)>>), Cn(<<3,0>>, X, <<R(1,2)>>)} ]
+    orph  |-> {Cn(<<0>>, X, <<RI(0)>>), Cn(<<2>>, X, <<RI(1)>>), Cn(<<3,0>>, X, <<R(1,2)>>)},
+    adv   |-> {Cn(<<0>>, X, <<RI(1)>>), Cn(<<3>>, X, <<R(1,2)>>), Cn(<<0,3>>, X, <<RI(-2)>>), Cn(<<1>>, X, <<RI(0)>>)} ]
 Neus ==
   [ chain |-> {Cn(<<3>>, X, <<RI(3)>>), Cn(<<1,2>>, X, <<RI(2)>>), Cn(<<0,3>>, X, <<RI(-1)>>)},
     vec   |-> {Cn(<<1>>, <<"y","x">>, <<RI(2), RI(-1)>>), Cn(<<0,1>>, <<"x","y">>, <<RI(2), RI(4)>>), Cn(<<1>>, <<"x">>, <<RI(3)>>)},
-    orph  |-> {Cn(<<3>>, X, <<RI(3)>>), Cn(<<2>>, X, <<RI(5)>>), Cn(<<1,3>>, X, <<RI(2)>>)} ]
+    orph  |-> {Cn(<<3>>, X, <<RI(3)>>), Cn(<<2>>, X, <<RI(5)>>), Cn(<<1,3>>, X, <<RI(2)>>)},
+    adv   |-> {Cn(<<3>>, X, <<RI(3)>>), Cn(<<1,2>>, X, <<RI(2)>>)} ]
 =============================================================================
